@@ -296,6 +296,9 @@ pub struct ForestProfile {
     pub exclude_unknown_color3uint8: bool,
     /// value types never used for *unknown* properties (outside the stated domain)
     pub exclude_unknown_types: Vec<VariantType>,
+    /// let one node carry several spellings (canonical and aliases) of one property, with
+    /// different values (C07: any tree is a legal input of the determinism property)
+    pub multi_spelling: bool,
 }
 
 pub const KNOWN_CLASS_POOL: &[&str] = &[
@@ -649,6 +652,22 @@ fn resolve(raw: Vec<RawNode>, root_sel: Vec<u16>, shape: u8, profile: &ForestPro
                         }
                     }
                     props.push((sp.name.clone(), resolve_refs(val, n)));
+                    if profile.multi_spelling && rp.seed % 3 != 1 {
+                        for (k, o) in candidates.iter().enumerate() {
+                            if o.view.roundtrip == sp.view.roundtrip
+                                && o.name != sp.name
+                                && o.view.canonical_ty == sp.view.canonical_ty
+                                && o.view.canonical != "UniqueId"
+                            {
+                                let seed2 = rp.seed.wrapping_add(1 + k as u64).wrapping_mul(0x9E37_79B9_7F4A_7C15);
+                                let v2 = match &o.view.canonical_ty {
+                                    Ty::Enum(_) => GVal::Enum((seed2 >> 40) as u32 % 7),
+                                    Ty::Value(t) => value_from_seed(*t, profile.vals, seed2),
+                                };
+                                props.push((o.name.clone(), resolve_refs(v2, n)));
+                            }
+                        }
+                    }
                 }
             } else if profile.unknown_props {
                 let pname = pick(rp.sel, UNKNOWN_PROP_POOL).unwrap().to_string();
